@@ -503,11 +503,12 @@ def build(hist, ctx=None):
 # reads
 
 
-def read_keys(shape):
+def read_keys(shape, full=None):
     N = len(shape)
     per_mode = []
+    full = (TIER == "thorough") if full is None else full
     for m, s in enumerate(shape):
-        if TIER == "thorough":
+        if full:
             items = [0, -1, S_(None, None), S_(0, 1)]
             if s >= 2:
                 items += [1, S_(1, None), L_(0, s - 1), L_(s - 1, 0)]
@@ -593,7 +594,8 @@ def check_reads(ctx, hist, T, S, R):
             rd(lambda: X.nnz, float(np.count_nonzero(a)), "derived_nnz")
             rd(lambda: X == 0, (a == 0).astype(float), "derived_eq0")
             rd(lambda: X.innerprod(X), float(np.sum(a * a)), "derived_innerprod")
-        for key in read_keys(shape):
+        # thorough: the full region alphabet on states up to depth 2, the quick one on the (many) depth-3 states
+        for key in read_keys(shape, full=(TIER == "thorough" and len(hist["labels"]) <= 2)):
             try:
                 want = R.read_region(key)
             except Disabled:
